@@ -65,22 +65,21 @@ def obligations(tier, seed):
         W = G.W_for(rep)
         A = '((%s)a * %s)' % (W, G.lit_w(W, k1)); B = '((%s)b * %s)' % (W, G.lit_w(W, k2))
         fits = lambda e: '(%s >= %s && %s <= %s)' % (e, G.lit_w(W, G.tmin(rep)), e, G.lit_w(W, G.tmax(rep)))
-        ops = [('eq', '=='), ('lt', '<'), ('ge', '>=')]
-        ws = []; checks = []
+        ops = [('eq', '=='), ('ne', '!='), ('lt', '<'), ('le', '<='), ('gt', '>'), ('ge', '>=')]
         for n, op in ops:
             wa = Wrapper('w_au_%s_%s' % (n, tag), 'bool', [(ct, 'a'), (ct, 'b')], 'return %s{a} %s au::make_quantity<%s>(b);' % (D1, op, U2))
             wr = Wrapper('w_aur_%s_%s' % (n, tag), 'bool', [(ct, 'a'), (ct, 'b')], 'return au::make_quantity<%s>(b) %s %s{a};' % (U2, op, D1))
             wc = Wrapper('w_chrono_%s_%s' % (n, tag), 'bool', [(ct, 'a'), (ct, 'b')], 'return %s{a} %s %s{b};' % (D1, op, D2))
             wcr = Wrapper('w_chronor_%s_%s' % (n, tag), 'bool', [(ct, 'a'), (ct, 'b')], 'return %s{b} %s %s{a};' % (D2, op, D1))
-            ws += [wa, wr, wc, wcr]
-            checks.append('  CHECK(%s(a, b) == %s(a, b), "duration-%s-quantity-agrees-with-chrono");' % (wa.name, wc.name, n))
-            checks.append('  CHECK(%s(a, b) == %s(a, b), "quantity-%s-duration-agrees-with-chrono");' % (wr.name, wcr.name, n))
-            checks.append('  CHECK(%s(a, b) == (%s %s %s), "duration-%s-quantity-is-the-exact-order");' % (wa.name, A, op, B, n))
-        body = '\n  ASSUME(%s && %s);\n%s\n' % (fits(A), fits(B), '\n'.join(checks))
-        obs.append(Ob(id='C17.mixed-cmp.%s' % tag, prop='C17', group='C17.mixed.%s' % tag, prelude=PRE, wrappers=ws, inputs=[(ct, 'a'), (ct, 'b')], body=body,
-                      contract='forall a,b with a*%d, b*%d in range(%s) [chrono\'s own common-type products do not overflow]: duration<%s>{a} op quantity(b, %s) == the same '
-                               'comparison done inside chrono == exact order of a*%d vs b*%d' % (k1, k2, ct, p1, p2, k1, k2),
-                      functions_under_contract=('au::operator==,<,>=(QLike, Quantity)', 'au::operator==,<,>=(Quantity, QLike)', 'au::as_quantity')))
+            checks = ['  CHECK(%s(a, b) == %s(a, b), "duration-%s-quantity-agrees-with-chrono");' % (wa.name, wc.name, n),
+                      '  CHECK(%s(a, b) == %s(a, b), "quantity-%s-duration-agrees-with-chrono");' % (wr.name, wcr.name, n),
+                      '  CHECK(%s(a, b) == (%s %s %s), "duration-%s-quantity-is-the-exact-order");' % (wa.name, A, op, B, n),
+                      '  CHECK(%s(a, b) == (%s %s %s), "quantity-%s-duration-is-the-exact-order");' % (wr.name, B, op, A, n)]
+            body = '\n  ASSUME(%s && %s);\n%s\n' % (fits(A), fits(B), '\n'.join(checks))
+            obs.append(Ob(id='C17.mixed-cmp.%s.%s' % (n, tag), prop='C17', group='C17.mixed.%s' % tag, prelude=PRE, wrappers=[wa, wr, wc, wcr], inputs=[(ct, 'a'), (ct, 'b')], body=body,
+                          contract='forall a,b with a*%d, b*%d in range(%s) [chrono\'s own common-type products do not overflow]: duration<%s>{a} %s quantity(b, %s), and the mirrored '
+                                   'quantity %s duration, equal the same comparison done inside chrono and the exact order of a*%d vs b*%d' % (k1, k2, ct, p1, op, p2, op, k1, k2),
+                          functions_under_contract=('au::operator%s(QLike, Quantity)' % op, 'au::operator%s(Quantity, QLike)' % op, 'au::as_quantity')))
         wsum = Wrapper('w_au_sum_' + tag, ct, [(ct, 'a'), (ct, 'b')], 'auto s = %s{a} + au::make_quantity<%s>(b); return s.in(au::CommonUnitT<%s, %s>{});' % (D1, U2, unit(p1), U2))
         wdif = Wrapper('w_au_dif_' + tag, ct, [(ct, 'a'), (ct, 'b')], 'auto s = au::make_quantity<%s>(b) - %s{a}; return s.in(au::CommonUnitT<%s, %s>{});' % (U2, D1, unit(p1), U2))
         wcs = Wrapper('w_chrono_sum_' + tag, ct, [(ct, 'a'), (ct, 'b')], 'return (%s{a} + %s{b}).count();' % (D1, D2))
